@@ -1827,11 +1827,13 @@ class LeCreditBasedChannel(utils.EventEmitter):
 
         # Send the SDU to the sink
         logger.debug(f'SDU complete: 2+{len(self.in_sdu) - 2} bytes')
-        self.sink(self.in_sdu[2:])  # pylint: disable=not-callable
+        sdu = self.in_sdu[2:]
 
-        # Prepare for a new SDU
+        # Prepare for a new SDU (before the sink runs: it may raise)
         self.in_sdu = None
         self.in_sdu_length = 0
+
+        self.sink(sdu)  # pylint: disable=not-callable
 
     def on_connection_response(
         self, response: L2CAP_LE_Credit_Based_Connection_Response
